@@ -343,7 +343,12 @@ Definition check_step (m : mstate) (st : step) : N * mstate :=
             go (x_cache st') (x_root st') rest (events (x_log st') :: acc)
                (allok && match res with XInvalid => false | _ => true end)
         end in
-      let '(c, txevs, allok) := go [] no_snaps txs [] true in
+      (* the block-level hooks write state as well: before the transactions key 9 of store 1 := [nb]; after them key 9 of
+         store 2 := [na] and key 9 of store 1 is deleted *)
+      let k1 := [0; 0; 0; 0; 1; 0; 0; 9] in let k2 := [0; 0; 0; 0; 1; 0; 1; 9] in
+      let c0 := match nb with O => [] | _ => db_set (a_state (m_db m)) [] k1 [N.of_nat nb] end in
+      let '(c1, txevs, allok) := go c0 no_snaps txs [] true in
+      let c := match na with O => c1 | _ => db_del (a_state (m_db m)) (db_set (a_state (m_db m)) c1 k2 [N.of_nat na]) k1 end in
       let mevs := map (fun e => (ev_name e, ev_data e, ev_topics e, ev_index e, ev_height e, true))
                       (block_events (hook 1 202 nb) txevs (hook 2 203 na)) in
       let out := commit hash_i enc_i root_eqb_i tree_update_i tree_root_i (m_db m) c height prev None false in
